@@ -258,3 +258,15 @@ func (it *Interp) LenCells() []CellKey {
 
 // LenCellObject returns the pseudo object of a cell's slice length (nil if none).
 func (it *Interp) LenCellObject(k CellKey) *Object { return it.lenCells[k] }
+
+// BitOp2 is the abstract AND / OR / XOR of two bits ("and", "or", "xor"): what the interpreter itself
+// computes, exported so that a check can state the expected bit of a bitwise instruction.
+func BitOp2(op string, a, b Bit) Bit {
+	switch op {
+	case "and":
+		return bitAnd(a, b)
+	case "or":
+		return bitOr(a, b)
+	}
+	return bitXor(a, b)
+}
